@@ -55,6 +55,20 @@ def handle (inp out : String) : String :=
         | .ok p => s!"0 {oh p.scheme} {oh p.user} {oh p.pass} {oh p.host} {p.port} {oh p.path} {oh p.query} {oh p.fragment}"
       verdict s!"splitfull:{cls out}" ms out none
     | none => "skip bad-hex"
+  | ["svc2", _which, h1, h2, login, key] =>
+    match ofHex h1, ofHex h2, argOpt login, argOpt key with
+    | some u1, some u2, some l, some k =>
+      let kind (t : Target) : Option String := match t with
+        | .http .. => some "H" | .tcp .. => some "T" | .file .. => some "F" | .refused _ => none
+      let t1 := setService u1 l k
+      let t2 := setService u2 l k
+      let want := ((kind t2).orElse fun _ => kind t1).getD "H"
+      let ms := s!"{t1.status} {t2.status} {want}"
+      let spec : Option String := match words out with
+        | [_, r2, act] => if r2 == "0" && t2.status == 0 && act != want then some s!"service-is-served-by-transport-{act}-after-it-was-set-to-a-{want}-uri" else none
+        | _ => none
+      verdict s!"svc2:{want}" ms out spec
+    | _, _, _, _ => "skip bad-args"
   | op :: which :: h :: login :: key :: rest =>
     if op != "svc" && op != "async" then "skip unknown-op" else
     match ofHex h, argOpt login, argOpt key with
